@@ -81,6 +81,29 @@ def extract_nested_variables(
     return all_subs, component_subs
 
 
+def nested_variable_substitutions(var: myokit.Variable) -> dict[sp.Symbol, sp.Symbol]:
+    """Substitutions from the local names of the variables nested inside
+    `var` (as they appear in the expression of `var`) to their unique names
+
+    Parameters
+    ----------
+    var : myokit.Variable
+        The variable owning the nested variables
+
+    Returns
+    -------
+    dict[sp.Symbol, sp.Symbol]
+        The substitutions
+    """
+    subs = {}
+    for v in var.variables(deep=True):
+        name = v.uname()
+        if name in reserved_names:
+            name = f"{name}_"
+        subs[sp.Symbol(v.name())] = sp.Symbol(name)
+    return subs
+
+
 def mmt_to_gotran(filename: str | Path) -> ODE:
     """Convert a myokit model to gotran ODE
 
@@ -151,7 +174,7 @@ def myokit_to_gotran(model: myokit.Model, protocol=None) -> ODE:
                 states.append(state)
                 with sp.core.parameters.evaluate(False):
                     expr = myokit.formats.sympy.write(var.eq().rhs)
-                    expr = expr.xreplace({v.name(): v.uname() for v in var.variables(deep=True)})
+                    expr = expr.xreplace(nested_variable_substitutions(var))
                     expr = expr.xreplace(component_subs.get(component.name(), {}))
                     expr = expr.xreplace(all_subs)
 
@@ -181,9 +204,7 @@ def myokit_to_gotran(model: myokit.Model, protocol=None) -> ODE:
 
                 else:
                     with sp.core.parameters.evaluate(False):
-                        expr = expr.xreplace(
-                            {v.name(): v.uname() for v in var.variables(deep=True)}
-                        )
+                        expr = expr.xreplace(nested_variable_substitutions(var))
                         expr = expr.xreplace(component_subs.get(component.name(), {}))
                         expr = expr.xreplace(all_subs)
 
